@@ -1281,13 +1281,13 @@ def r2_lockstep(ctx, model, results, report, rng):
                 meta.append(("api", g, c, ops, obs))
         for l in out.split("\n"):
             t = l.split(" ")
-            if t[0] == "S" and len(t) == 12:
+            if t[0] == "S" and len(t) == 13:
                 try:
                     v = [int(x) for x in t[1:]]
                 except ValueError:
                     continue
                 c, code, a, b, okc = v[0], v[1], v[2], v[3], v[4]
-                st = v[5:11]
+                st = v[5:12]
                 if code == 0:
                     flush(c)
                     cur[c] = ([], [])
@@ -1303,7 +1303,7 @@ def r2_lockstep(ctx, model, results, report, rng):
                 if not okc and code in (1, 2, 3):
                     # a refusal for a reason outside the model (bounds, static memory) while the stage would allow the call:
                     # not part of the API-state history
-                    prev = obs[-1][1] if obs else [0, 0, 0, 0, 0, 0]
+                    prev = obs[-1][1] if obs else [0, 0, 0, 0, 0, 0, 0]
                     if prev[0] == 0 and not (code == 2 and prev[3] == 1):
                         n_env += 1
                         continue
@@ -1348,11 +1348,11 @@ def r2_lockstep(ctx, model, results, report, rng):
         ctx.cov["traces_validated_against_impl"] += 1
         if kind == "api":
             bad = None
-            if len(r) != 7 * len(ops):
+            if len(r) != 8 * len(ops):
                 bad = dict(what="model output length", got=len(r), ops=len(ops))
             else:
                 for i, (okc, st) in enumerate(obs):
-                    pr = r[7 * i:7 * i + 7]
+                    pr = r[8 * i:8 * i + 8]
                     if st[0] < 0:
                         continue
                     if pr != [okc] + st:
@@ -1360,7 +1360,7 @@ def r2_lockstep(ctx, model, results, report, rng):
                         break
             ctx.count(("lockstep-api", min(len(ops), 12), tuple(sorted(set(o[0] for o in ops))), bad is None), nontrivial=len(ops) > 3)
             if bad:
-                report("lockstep", g, dict(model="ApiState.astep (accepted stage ldict lcdict cdict prefix collect)", ctx=c, detail=bad))
+                report("lockstep", g, dict(model="ApiState.astep (accepted stage ldict lcdict cdict prefix collect buffered)", ctx=c, detail=bad))
             else:
                 n_ok += 1
         elif kind == "mingain":
@@ -1847,6 +1847,126 @@ def r2_groups(rng, gid0, inputs, dicts, tiny, quick):
     return gs
 
 
+# --------------------------------------------------------------------------------------------
+# round 3: second doors found by the third builder (both repaired in /repo: regressions, strict)
+
+KEY_STABLEIN = "stablein-deferral-end-skips-stability-check"
+KEY_COPYOPEN = "copyCCtx-into-open-stream-keeps-stage"
+
+
+def r3_groups(rng, gid0, inputs, quick):
+    """(1) stable input buffer: the call that ENDS a deferred start (ZSTD_e_flush / ZSTD_e_end / ZSTD_e_continue reaching a block)
+    with another buffer or a rewound pos must be refused (before 0548f83 it succeeded and compressed the bytes in front of the new
+    buffer: output a function of memory the caller never passed); (2) ZSTD_copyCCtx into a context whose streaming frame is open
+    closes that session (before d3967a5: SIGSEGV / stale buffer contents flushed by the next streaming call)."""
+    src = inputs[0]
+    t = Target("stream", src, params={"level": 3}, pieces=[(src[1], 2)], bias="r3-second-doors")
+    g = Group(gid0, t)
+    g.r3 = True
+    g.mt = False
+    L = g.lines
+    L += ["arena 2000000", "trace 0"]
+    n = 0
+    combos = [(0, 2, 0, 1000, 5000), (1, 2, 0, 1000, 5000), (2, 2, 0, 1000, 5000), (0, 1, 0, 300, 70000), (1, 1, 0, 4000, 100),
+              (0, 0, 0, 100000, 140000), (2, 0, 0, 100000, 140000), (0, 1, 1, 2000, 60000), (2, 2, 1, 3000, 3000)]
+    if not quick:
+        for _ in range(40):
+            combos.append((rng.randrange(3), rng.randrange(3), rng.choice([0, 0, 1, 2]), rng.randint(1, 131071), rng.randint(1, 200000)))
+    for mode, endop, nbw, n1, n2 in combos:
+        if endop == 0 and n1 + n2 < 131072:
+            n2 = 131072 - n1 + rng.randint(0, 5000)         # an e_continue call ends the deferral only when a block is reached
+        L.append("X stablein %d %d %d %d %d" % (mode, endop, nbw, n1, n2))
+        n += 1
+    for nb, we in [(600000, 0), (600000, 1), (200000, 1)]:
+        L.append("X copyopen %d %d" % (nb, we))
+        n += 1
+    g.r3_expected = n
+    g.variants = []
+    return [g]
+
+
+def judge_r3(g, res, report, ctx):
+    rc, out, err, script = res
+    n = 0
+    for l in out.split("\n"):
+        t = l.split(" ")
+        if t[0] != "X" or len(t) < 4:
+            continue
+        n += 1
+        if t[1] == "stablein":
+            mode, endop, nbw, n1, n2, e1, e2, estab, regen, same, bmax = (int(x) for x in t[2:13])
+            if mode in (0, 1):
+                ok = (e2 == estab)
+            else:
+                ok = (e1 == 0 and e2 == 0 and same == 1)
+            ctx.count(("r3", "stablein", mode, endop, nbw > 0, ok), nontrivial=True)
+            if not ok:
+                report("differ" if mode in (0, 1) else "rt", g,
+                       dict(what="ZSTD_c_stableInBuffer=1: deferred ZSTD_e_continue of %d bytes, then %s with %s: expected %s, got error code %d, "
+                                 "frame regenerates %d bytes" % (n1, ["e_continue", "e_flush", "e_end"][endop],
+                                                                ["another input buffer", "the same buffer with pos rewound to 0", "the grown buffer"][mode],
+                                                                "stabilityCondition_notRespected" if mode in (0, 1) else "the %d input bytes back" % (n1 + n2),
+                                                                e2, regen), line=l), key=KEY_STABLEIN if mode in (0, 1) else None)
+        elif t[1] == "copyopen":
+            nb, we, e0, st1, e1, st2, e2, e3, d = (int(x) for x in t[2:11])
+            ok = (e0 == 0 and st1 == 1 and e1 == 0 and st2 == 0 and e2 == 0 and e3 == 0 and d == 5000)
+            ctx.count(("r3", "copyopen", we, ok), nontrivial=True)
+            if not ok:
+                report("differ", g, dict(what="ZSTD_copyCCtx into a context whose streaming frame is open: stage after the copy %s, the next "
+                                              "ZSTD_compressStream2(e_end, 5000 bytes) -> error %d, regenerates %d" % ("load" if st2 else "init", e3, d), line=l),
+                       key=KEY_COPYOPEN)
+    if rc != 0 or n != g.r3_expected:
+        report("crash", g, dict(rc=rc, stderr=err[-600:], last=out[-300:], what="round-3 second-door scenarios: %d of %d lines" % (n, g.r3_expected)),
+               key=None)
+
+
+def r3_lockstep(ctx, model, results, report):
+    """the stable-input scenarios against Det/StableIn.v (opcode 17): which call is accepted, how many bytes the accepted calls hand
+    to the block compressor (= what the frame regenerates), ZSTD_BLOCKSIZE_MAX"""
+    cases, meta = [], []
+    A, B = 1000000, 5000000
+    for g, res in results:
+        if not getattr(g, "r3", False):
+            continue
+        for l in res[1].split("\n"):
+            t = l.split(" ")
+            if t[0] != "X" or t[1] != "stablein" or len(t) < 13:
+                continue
+            mode, endop, nbw, n1, n2, e1, e2, estab, regen, same, bmax = (int(x) for x in t[2:13])
+            c2 = [(B, n2, 0), (A, n1 + n2, 0), (A, n1 + n2, n1)][mode]
+            calls = [A, n1, 0, 0, c2[0], c2[1], c2[2], endop]
+            if endop != 2:
+                calls += [c2[0], c2[1], c2[1], 2]
+            cases.append((17, [0, 131072] + calls))
+            meta.append((g, l, mode, endop, e1, e2, estab, regen, bmax, n1, n2))
+    if not cases:
+        return 0
+    n_ok = 0
+    for (g, l, mode, endop, e1, e2, estab, regen, bmax, n1, n2), r in zip(meta, model.run(cases)):
+        ctx.cov["traces_validated_against_impl"] += 1
+        ncall = 2 if endop == 2 else 3
+        bad = None
+        if len(r) != 3 * ncall + 1:
+            bad = dict(what="model output length", got=len(r))
+        else:
+            acc = [r[3 * k] for k in range(ncall)]
+            total = sum(r[3 * k + 2] - r[3 * k + 1] for k in range(ncall) if acc[k])
+            if r[-1] != bmax:
+                bad = dict(what="ZSTD_BLOCKSIZE_MAX", model=r[-1], real=bmax)
+            elif acc[0] != (1 if e1 == 0 else 0):
+                bad = dict(what="first call", predicted_accepted=acc[0], error=e1)
+            elif acc[1] == 0 and e2 != estab:
+                bad = dict(what="the model refuses the call that ends the deferral, the code returns error code %d" % e2)
+            elif acc[1] == 1 and (e2 != 0 or regen != total):
+                bad = dict(what="the model accepts and hands over %d bytes; the code: error code %d, frame regenerates %d" % (total, e2, regen))
+        ctx.count(("lockstep-stablein", mode, endop, bad is None), nontrivial=True)
+        if bad:
+            report("lockstep", g, dict(model="StableIn.step (accepted, bytes handed to the block compressor)", line=l, detail=bad))
+        else:
+            n_ok += 1
+    return n_ok
+
+
 def judge_wsweep(g, res, report, ctx):
     rc, out, err, script = res
     n = 0
@@ -1942,6 +2062,7 @@ def run_(ctx):
     groups += fg
     groups.append(mt_finding_group(n_groups + n_mt + len(fg), bigs, mtsrc))
     groups += r2_groups(r2rng, 200000, inputs, dicts, tiny, quick)
+    groups += r3_groups(random.Random(ctx.seed * 104729 + 3), 300000, inputs, quick)
     if only is not None:
         groups = [g for g in groups if g.gid == only]
 
@@ -1979,6 +2100,9 @@ def run_(ctx):
                 report("crash", g, dict(what="mt lock-step failed", error=repr(e)))
         elif getattr(g, "wsweep", False):
             judge_wsweep(g, res, report, ctx)
+            st, frames, dumps = {}, {}, []
+        elif getattr(g, "r3", False):
+            judge_r3(g, res, report, ctx)
             st, frames, dumps = {}, {}, []
         else:
             if getattr(g, "narrow", None):
@@ -2045,7 +2169,8 @@ def run_(ctx):
         n_ok = run_lockstep(ctx, model, per_group, report)
         n_ok2 = extra_lockstep(ctx, model, per_group, report)
         n_ok3 = r2_lockstep(ctx, model, results, report, rng)
-        log("lock-step: %d + %d + %d (round 2: API state, block emission) model predictions matched" % (n_ok, n_ok2, n_ok3))
+        n_ok4 = r3_lockstep(ctx, model, results, report)
+        log("lock-step: %d + %d + %d (round 2: API state, block emission) + %d (round 3: stable input) model predictions matched" % (n_ok, n_ok2, n_ok3, n_ok4))
     except Exception as e:
         viol.append(("crash", None, dict(what="lock-step failed to run", error=repr(e)), None))
 
